@@ -19,7 +19,8 @@
    (child.version = t.version).  Snapshot() of a trie with child tries is
    [snapshot_with_children], PutIntoChild is [put_into_child]: lists of such steps. *)
 From Common Require Import Bytes Blake2b.
-From C03 Require Import Model ModelY Proofs ProofsY Main MainX MainY.
+From Trie Require Spec.
+From C03 Require Import Model ModelY Proofs ProofsY Main MainX MainY PurePut.
 
 (* No step of a fork history changes what is seen through any handle other than the one it
    mutates; steps that mutate no handle (Snapshot, SetVersion — raising the version included —,
@@ -115,6 +116,32 @@ Example C03_child_tries_nonvacuous :
       /\ root_of st 1 = child_root2 /\ root_of st 3 = child_root3 /\ child_root3 <> child_root2).
 Proof. exact child_hist_nonvacuous. Qed.
 
+(* ---- agreement with the pure trie (DESIGN.md: C03_pure_agrees), deletion-free histories ----
+   Full statement wanted: for every fork history satisfying frozen_parents, Entries()/Hash() of every
+   handle are those of the pure trie of properties C01/C02 after the operations of the handle's
+   lineage.  Proved below for histories of Put, Snapshot, SetVersion, WriteDirty and Hash (any
+   number, any interleaving, any tree of snapshots): Entries() of handle j is EXACTLY the ordered
+   byte-keyed map [prun hist] computes for j by replaying the Puts of j's lineage with the
+   specification's bm_put (Trie/Spec.v) — so the heap insert through copy-on-write nodes computes
+   the pure insert of C01/C02 (InsertPure.insert_spec_er: erase (heap result) = Trie.Model.insert
+   (erase tree)), and snapshots inherit the contents of their source.  Not proved: the same for
+   Delete / ClearPrefix / ClearPrefixLimit steps and for the root hash (checked by the
+   correspondence run). *)
+Theorem C03_pure_agrees_partial :
+  forall (H : list byte -> list byte) (fd : bool) (hist : list step),
+  frozen_parents hist = true -> forallb put_only hist = true ->
+  forall j b, nth_error (prun hist) j = Some b ->
+  exists h, view H true (run H true fd hist init_state) j = Some (h, b).
+Proof. exact put_pure. Qed.
+Print Assumptions C03_pure_agrees_partial.
+
+(* non-vacuity: three handles with different contents; the specification maps are the entries *)
+Example C03_pure_agrees_nonvacuous :
+  let hist := [Put 0 k12 v40; Put 0 k1234 v3; Commit 0; Snap 0; SetVer 1 true; Put 1 k12 v3; Snap 1; Put 2 [n2b 32] v40] in
+  frozen_parents hist = true /\ forallb put_only hist = true
+  /\ prun hist = [[(k12, v40); (k1234, v3)]; [(k12, v3); (k1234, v3)]; [(k12, v3); (k1234, v3); ([n2b 32], v40)]].
+Proof. vm_compute. repeat split; reflexivity. Qed.
+
 (* The pinned code (MustBeHashed and SetDirty applied to the shared node before
    prepForMutation) violated the property: raising a snapshot's version and re-putting an
    unchanged 40-byte value changes the view through the original. *)
@@ -154,3 +181,15 @@ Example C03_parent_mutation_shares :
   view blake2b_256 false (run blake2b_256 true false parent_hist init_state) 1
     <> view blake2b_256 false (run blake2b_256 true false (firstn 2 parent_hist) init_state) 1.
 Proof. exact parent_mutation_shares. Qed.
+
+(* informational: the hypothesis also excludes mutating a SNAPSHOT after a snapshot was taken from
+   it (fork tree 0 -> 1 -> 2, operation on the inner handle 1 after 2 exists): the nodes of handle 1's
+   own generation are shared with handle 2 and rewritten in place.  Snapshot()'s contract is
+   "copy on write as modifications are done on this NEW trie"; dot/state never mutates a trie it
+   has handed a snapshot of. *)
+Example C03_snapshot_parent_mutation_shares :
+  frozen_parents snap_parent_hist = false /\
+  frozen_parents (firstn 4 snap_parent_hist) = true /\
+  view blake2b_256 false (run blake2b_256 true false snap_parent_hist init_state) 2
+    <> view blake2b_256 false (run blake2b_256 true false (firstn 4 snap_parent_hist) init_state) 2.
+Proof. exact snapshot_parent_mutation_shares. Qed.
